@@ -10,8 +10,10 @@ from mc.ref import cssdoc as D
 ID = 'C10'
 
 BOUNDS = {
-    'quick': dict(nodes=4, depth=3, rotations=14, layouts=D.LAYOUTS, big=0),
-    'thorough': dict(nodes=5, depth=3, rotations=14, layouts=D.LAYOUTS, big=6),
+    # pair: all ordered pairs of comment-free rule trees with up to that many nodes each, written as two top-level rules
+    # (what an earlier subtree leaves behind meets every later subtree), compact layout, every position
+    'quick': dict(nodes=4, depth=3, rotations=14, layouts=D.LAYOUTS, big=0, pair=4),
+    'thorough': dict(nodes=5, depth=3, rotations=14, layouts=D.LAYOUTS, big=6, pair=5),
 }
 NSH = 64
 
@@ -20,10 +22,10 @@ def describe(tier):
     b = BOUNDS[tier]
     return dict(
         rule='E2xE4: all forests with <= %d nodes over {rule, declaration, comment}, rule nesting <= %d, texts from %d selectors %s and %d '
-             'declarations %s in %d rotations, plus parenthesised-delimiter declarations %s in a separate pass; layouts %s%s; every '
+             'declarations %s in %d rotations, plus parenthesised-delimiter declarations %s in a separate pass; layouts %s%s; plus all ordered pairs of comment-free rule trees with <= %d nodes each as two top-level rules (compact layout); every '
              'position 0..len; match, balanced_outward, balanced_inward. Transition = caret +1 / one more node.' % (
                  b['nodes'], b['depth'], len(D.SELECTORS), D.SELECTORS, len(D.DECLS), D.DECLS, b['rotations'], D.DECLS_PAREN,
-                 b['layouts'], '; %d nodes in the compact layout, one rotation' % b['big'] if b['big'] else ''),
+                 b['layouts'], '; %d nodes in the compact layout, one rotation' % b['big'] if b['big'] else '', b['pair']),
         nontrivial='the position lies strictly inside at least one rule or declaration.',
         bounds=b,
         assumptions=['the checked calls at every fourth position are preceded by %d calls on incomplete / ill-formed text (unclosed and stray parentheses, '
@@ -43,6 +45,8 @@ def docs(tier):
         for sh in D.shapes(n, b['depth']):
             for rot in range(b['rotations']):
                 for lay in b['layouts']:
+                    if lay.startswith('glued') and rot % 2:
+                        continue                      # the fifth layout in every second rotation
                     yield sh, rot, lay, False
             if any_decl(sh):
                 for rot in range(len(D.DECLS_PAREN)):
@@ -50,6 +54,26 @@ def docs(tier):
     for n in range(b['nodes'] + 1, b['big'] + 1):
         for sh in D.shapes(n, b['depth']):
             yield sh, n, 'compact', False
+    small = [t for n in range(1, b['pair'] + 1) for t in D.trees(n, b['depth']) if t[0] == 'R' and no_comment([t])]
+    for i, a in enumerate(small):
+        for j, c in enumerate(small):
+            yield [a, c], (i + j) % 14, 'compact', False
+
+
+def no_comment(sh):
+    return all(n[0] != 'C' and (n[0] != 'R' or no_comment(n[1])) for n in sh)
+
+
+def anchored_positions(text, nodes):
+    "the first / second / last-but-one / last offset of every node, and both ends of every rule body"
+    ps = set()
+    for n in nodes:
+        ps.update((n['start'], n['start'] + 1, n['end'] - 1, n['end']))
+        if n['kind'] == 'rule':
+            ps.update(n['body'])
+        elif n.get('value'):
+            ps.update((n['value'][0], n['value'][1]))
+    return sorted(p for p in ps if 0 <= p <= len(text))
 
 
 def any_decl(sh):
@@ -136,7 +160,7 @@ def run_shard(shard, ctx, tier):
     for idx, (sh, rot, lay, paren) in enumerate(docs(tier)):
         if idx % of != k:
             continue
-        text, nodes = D.emit(sh, rot, lay, D.DECLS_PAREN if paren else None)
+        text, nodes = D.emit(sh, rot, lay, D.DECLS_PAREN if paren is True else None)
         ctx.states += 1
         for p in range(len(text) + 1):
             ctx.tick((text, p))
@@ -170,7 +194,7 @@ def _tup(sh):
 
 
 def check_case(case):
-    text, nodes = D.emit(_tup(case['shape']), case['rotation'], case['layout'], D.DECLS_PAREN if case.get('paren') else None)
+    text, nodes = D.emit(_tup(case['shape']), case['rotation'], case['layout'], D.DECLS_PAREN if case.get('paren') is True else None)
     return [(refine(c, text, nodes, case['pos'], d), d) for c, d in check_pos(text, nodes, case['pos'])]
 
 
